@@ -14,7 +14,8 @@ RULE = (
     "of the largest steps on the ring. Oracle: none => FinamCircularCouplingError and nothing else (no hang: "
     "deterministic update/connect bounds, no RecursionError, no time/no-data error); sufficient / breaking "
     "modes => run completes and the C01/C02/C03 monitors are clean at every update; insufficient => either "
-    "of the two, nothing else. non-trivial = ring >= 3 members, or split delays, or a chord. distinct = JSON."
+    "of the two, nothing else. A quarter of the rings have a parallel link: one member reads its predecessor's output "
+    "(a model's or the pull-based member's) twice, through two inputs with different delays, the extra one declared first or last. non-trivial = ring >= 3 members, or split delays, or a chord. distinct = JSON."
 )
 ASSUMPTIONS = [
     "sufficiency: a reported cycle needs t_{i+1} < t_i + s_i - d_i around the ring, so sum d >= sum of largest steps excludes it",
